@@ -22,4 +22,5 @@ PATH_WORLDS = {
     "aave(path)": lambda: catalog.aave_path_world(),
     "uni+aave": lambda: catalog.uni_aave_world(),
     "deribit+uni": lambda: catalog.deribit_uni_world(),
+    "deribit(many)+uni": lambda: catalog.deribit_uni_world(2, extra_instruments=70),  # 146 option rows against 61 minute bars
 }
